@@ -309,6 +309,56 @@ def _coerce(a, b):
     return a, b
 
 
+# ---- "algebra-free" mode for data-flow obligations: products and quotients of two non-constant reals become
+# uninterpreted functions, so queries stay in QF_UFLRA (z3's nonlinear+UF combination returns unknown on them)
+NL_UF = [False]
+NL_LOG = []
+_MUL = z3.Function("mul", z3.RealSort(), z3.RealSort(), z3.RealSort())
+_DIV = z3.Function("div", z3.RealSort(), z3.RealSort(), z3.RealSort())
+
+
+def _is_num(a):
+    return z3.is_rational_value(a) or z3.is_int_value(a) or z3.is_algebraic_value(a)
+
+
+def zmul(a, b):
+    if NL_UF[0]:
+        a, b = z3.simplify(a), z3.simplify(b)
+    if not NL_UF[0] or _is_num(a) or _is_num(b) or not (z3.is_real(a) and z3.is_real(b)):
+        return a * b
+    if a.get_id() > b.get_id():
+        a, b = b, a
+    t = _MUL(a, b)
+    NL_LOG.append(("mul", a, b, t))
+    return t
+
+
+def zdiv(a, b):
+    if NL_UF[0]:
+        b = z3.simplify(b)
+    if not NL_UF[0] or _is_num(b):
+        return a / b
+    t = _DIV(a, b)
+    NL_LOG.append(("div", a, b, t))
+    return t
+
+
+_NL_DONE = [0]
+
+
+def nl_unit_lemmas(all_=False):
+    """instances of commutativity, x*1 = x, x/1 = x, x*0 = 0 for every (new) recorded uninterpreted product/quotient"""
+    out = []
+    start = 0 if all_ else min(_NL_DONE[0], len(NL_LOG))
+    for kind, a, b, t in NL_LOG[start:]:
+        if kind == "mul":
+            out += [t == _MUL(b, a), z3.Implies(a == 1, t == b), z3.Implies(b == 1, t == a), z3.Implies(z3.Or(a == 0, b == 0), t == 0)]
+        else:
+            out += [z3.Implies(b == 1, t == a)]
+    _NL_DONE[0] = len(NL_LOG)
+    return out
+
+
 def mk(e):
     """z3 term -> Python constant when it simplifies to one, else Sym wrapper."""
     if not z3.is_expr(e):
@@ -353,8 +403,8 @@ class SymNum(Sym):
     def __radd__(s, o): return s._rbin(o, lambda a, b: a + b)
     def __sub__(s, o): return s._bin(o, lambda a, b: a - b)
     def __rsub__(s, o): return s._rbin(o, lambda a, b: a - b)
-    def __mul__(s, o): return s._bin(o, lambda a, b: a * b)
-    def __rmul__(s, o): return s._rbin(o, lambda a, b: a * b)
+    def __mul__(s, o): return s._bin(o, zmul)
+    def __rmul__(s, o): return s._rbin(o, zmul)
     def __neg__(s): return mk(-s.e)
     def __pos__(s): return s
     def __abs__(s): return mk(z3.If(s.e >= 0, s.e, -s.e))
@@ -371,10 +421,10 @@ class SymNum(Sym):
     __hash__ = Sym.__hash__
 
     def __truediv__(s, o):
-        return s._bin(o, lambda a, b: _todiv(a) / _todiv(b))
+        return s._bin(o, lambda a, b: zdiv(_todiv(a), _todiv(b)))
 
     def __rtruediv__(s, o):
-        return s._rbin(o, lambda a, b: _todiv(a) / _todiv(b))
+        return s._rbin(o, lambda a, b: zdiv(_todiv(a), _todiv(b)))
 
     def __pow__(s, k):
         if isinstance(k, float) and k == int(k):
